@@ -3,8 +3,8 @@
    2 * ONE is 2.0.  Quantification: every configuration record / option argument / e-mode entry list
    of any length over all of Z (hence all i128 / u64 / u16 bit patterns), every sequence of
    configuration requests, every portfolio of any length.
-   Valid g b  :=  BankConfig::validate (b_cfg b) = Ok  /\  validate_entries_with_liability_weights
-                  (b_emode b) against b's liability weights and the group's caps g = Ok  /\  the stored
+   Valid g b  :=  BankConfig::validate (cb_cfg b) = Ok  /\  validate_entries_with_liability_weights
+                  (cb_emode b) against b's liability weights and the group's caps g = Ok  /\  the stored
                   entries are sorted by tag (what lending_pool_configure_bank_emode stores). *)
 Require Import Base Constants ConfigGen Fixed Curve Config Emode ConfigPaths ConfigHealth.
 Require Import FixedLemmas CurveLemmas ConfigLemmas ConfigHealthLemmas.
@@ -66,24 +66,24 @@ Proof. exact sequences_preserve_valid. Qed.
 Theorem C13_clone_emode_refuted :
   exists g src dst dst',
     Valid g src /\ Valid g dst /\ ix_clone_emode src dst = Ok dst' /\
-    em_validate (b_emode dst') (b_cfg dst') (cap_init g) (cap_maint g) = Err EBadEmodeConfig /\
-    (exists e, In e (es_entries (b_emode dst')) /\ ee_is_empty e = false /\ bc_lwi (b_cfg dst') <= ee_init e).
+    em_validate (cb_emode dst') (cb_cfg dst') (cap_init g) (cap_maint g) = Err EBadEmodeConfig /\
+    (exists e, In e (es_entries (cb_emode dst')) /\ ee_is_empty e = false /\ bc_lwi (cb_cfg dst') <= ee_init e).
 Proof. exact clone_emode_refuted. Qed.
 
 (* ... and sound exactly when the source's entries pass the destination's validation *)
 Theorem C13_clone_emode_restricted :
   forall g src dst dst',
-  ix_clone_emode src dst = Ok dst' -> cfg_valid (b_cfg dst) ->
-  em_validate (b_emode src) (b_cfg dst) (cap_init g) (cap_maint g) = Ok tt ->
-  es_sorted (es_entries (b_emode src)) ->
+  ix_clone_emode src dst = Ok dst' -> cfg_valid (cb_cfg dst) ->
+  em_validate (cb_emode src) (cb_cfg dst) (cap_init g) (cap_maint g) = Ok tt ->
+  es_sorted (es_entries (cb_emode src)) ->
   Valid g dst'.
 Proof. exact clone_emode_restricted. Qed.
 
 (* changing liability weights after e-mode entries were set: an unfrozen configure re-runs the entry
    validation against the new weights *)
 Theorem C13_configure_revalidates_emode :
-  forall g b o b', ix_configure_bank g b o = Ok b' -> get_flag b FREEZE_SETTINGS = false ->
-  em_validate (b_emode b') (b_cfg b') (cap_init g) (cap_maint g) = Ok tt /\ b_emode b' = b_emode b.
+  forall g b o b', ix_configure_bank g b o = Ok b' -> cb_get_flag b FREEZE_SETTINGS = false ->
+  em_validate (cb_emode b') (cb_cfg b') (cap_init g) (cap_maint g) = Ok tt /\ cb_emode b' = cb_emode b.
 Proof. exact configure_revalidates_emode. Qed.
 
 (* ---- killed-by-bankruptcy *)
@@ -133,13 +133,19 @@ Theorem C13_buffer_without_emode :
   li <= ai -> lm <= am.
 Proof. exact buffer_without_emode. Qed.
 
+(* the discount of maybe_get_asset_weight_init_discount is always a factor in [0,1] (hypothesis of pos_ok) *)
+Theorem C13_init_discount_in_unit_interval :
+  forall limit total price scale d,
+  0 <= limit -> init_discount limit total price scale = Ok (Some d) -> 0 <= d <= ONE.
+Proof. exact init_discount_range. Qed.
+
 (* Non-vacuity: a concrete valid bank with an accepted e-mode entry at 8x / 16x leverage against the 15x / 20x
    caps, a portfolio on which both health evaluations succeed with the e-mode weight in force, and a
    rejected configuration *)
 Definition ex_cfg : bank_cfg := w_cfg ONE ONE OP_OPERATIONAL.
 Definition ex_entries : list emode_entry := [mkEE 7 0 (ONE - ONE / 8) (ONE - ONE / 16)].
-Definition ex_lender : bank := mkBank ex_cfg CLOSE_ENABLED_FLAG (mkES 0 0 1 ex_entries).
-Definition ex_coll : bank := mkBank ex_cfg CLOSE_ENABLED_FLAG (mkES 7 0 0 []).
+Definition ex_lender : cbank := mkCBank ex_cfg CLOSE_ENABLED_FLAG (mkES 0 0 1 ex_entries).
+Definition ex_coll : cbank := mkCBank ex_cfg CLOSE_ENABLED_FLAG (mkES 7 0 0 []).
 Definition ex_portfolio : list position :=
   [mkPos false (1000 * ONE) ONE ONE ex_coll None; mkPos true (800 * ONE) ONE ONE ex_lender None].
 Example C13_nonvacuous :
@@ -174,3 +180,4 @@ Print Assumptions C13_reconcile_keeps_init_le_maint.
 Print Assumptions C13_buffer.
 Print Assumptions C13_buffer_with_emode.
 Print Assumptions C13_buffer_without_emode.
+Print Assumptions C13_init_discount_in_unit_interval.
